@@ -51,6 +51,8 @@ def gen_batch(r, bi, services=False, can=False, n_random=(6, 9), out_of_order=Tr
         ("d", 3, ("arr", ("arr", ("u", 8), 2), 3)),
         ("e", 4, ("dyn", ("arr", ("i", 16), 3))),
     ])
+    # a fixed array longer than 2^16 elements (array sizes travel as integers in the reflection)
+    add(p + "Long", [("n", 0, ("u", 3)), ("data", 1, ("arr", ("u", r.choice([1, 2])), 65536 + r.randint(1, 9))), ("z", 2, ("i", 5))])
     add(p + "Dyn", [
         ("a", 0, ("u", 3)),
         ("b", 1, ("dyn", ("u", r.choice([1, 8, 13])))),
